@@ -824,6 +824,9 @@ func checkListHelper(c *Ctx, r *Report, expFns []*ssa.Function) {
 				every = true
 			}
 		})
+		if !every {
+			every = filterByAppendTrims(fn)
+		}
 		r.Check(every, "F15-list-helper", c.funcKey(fn)+": every item trimmed", c.pos(fn.Pos()),
 			"the whitespace-trimmed, expanded value must be stored back for every item of the list (no item may skip the trim, whether or not it contains a reference)")
 		return
@@ -942,4 +945,70 @@ func expansionStorePaths(c *Ctx) map[string]ssa.Instruction {
 		})
 	}
 	return out
+}
+
+// filterByAppendTrims: the single-pass form of the list helper -
+//
+//	kept := items[:0]; for _, it := range items { if v := TrimSpace(Expand(it)); v != "" { kept = append(kept, v) } }; return kept
+//
+// every value that reaches the result is the trimmed expansion of an element,
+// and the only test deciding whether it is kept is the emptiness of that very
+// value.
+func filterByAppendTrims(fn *ssa.Function) bool {
+	ok := false
+	prm := fn.Params[len(fn.Params)-1]
+	forEachInstr(fn, func(in ssa.Instruction) {
+		app, isCall := in.(*ssa.Call)
+		if !isCall {
+			return
+		}
+		b, isB := app.Call.Value.(*ssa.Builtin)
+		if !isB || b.Name() != "append" {
+			return
+		}
+		vals := variadicElems(app.Call.Args[1])
+		if len(vals) != 1 {
+			return
+		}
+		trim, isTrim := vals[0].(*ssa.Call)
+		if !isTrim || !calleeIs(trim, "strings", "", "TrimSpace") {
+			return
+		}
+		exp, isExp := trim.Call.Args[0].(*ssa.Call)
+		if !isExp || !calleeIs(exp, "os", "", "Expand") {
+			return
+		}
+		// the expanded value is an element of the parameter
+		ld, isLd := exp.Call.Args[0].(*ssa.UnOp)
+		if !isLd {
+			return
+		}
+		ia, isIA := ld.X.(*ssa.IndexAddr)
+		if !isIA || ia.X != ssa.Value(prm) {
+			return
+		}
+		// kept behind `trimmed != ""` and nothing else inside the loop body
+		id := app.Block().Idom()
+		if id == nil || len(app.Block().Preds) != 1 {
+			return
+		}
+		ifi, isIf := id.Instrs[len(id.Instrs)-1].(*ssa.If)
+		if !isIf {
+			return
+		}
+		cmp, isCmp := ifi.Cond.(*ssa.BinOp)
+		if !isCmp || cmp.X != ssa.Value(trim) || !isConstString(cmp.Y) || constOrEmpty(cmp.Y.(*ssa.Const)) != "" {
+			return
+		}
+		if !(cmp.Op == token.NEQ && id.Succs[0] == app.Block() || cmp.Op == token.EQL && id.Succs[1] == app.Block()) {
+			return
+		}
+		// the test sits in the block that loads the element (no earlier test
+		// can skip the item)
+		if id != ia.Block() {
+			return
+		}
+		ok = true
+	})
+	return ok
 }
